@@ -2,6 +2,7 @@
 //! properties: C06 C07
 //! note: claim aggregation in OnchainTxHandler::update_claims_view_from_requests: merging claim requests never loses or duplicates an input, whatever can_merge_with answers
 //! trusted: R15 (deep slice): the aggregation loop nest of update_claims_view_from_requests verbatim as a function of the request vector; the two tests of the time-lock split are extracted as two further slices; duplicate filtering before it and claim generation after it are dropped and not claimed
+//! trusted: R15 (deep slices): update_claims_view_from_matched_txn: the body of `if at_least_one_drop { .. }` (the statement that records the split request as a bump candidate and the removal of its pending claim events) and the body of the loop that reschedules requests whose timer expired, verbatim, as functions of the candidate map, the claim id and the request; the `#[cfg(debug_assertions)]` counting assertions are dropped (cfg debug_assertions=false for these two extracts); the candidate map is an environment type: insert/remove have the std contracts, the entry API is over-approximated (key present afterwards, present values unchanged, absent value unconstrained); matching confirmed inputs to requests, split_package, the ANTI_REORG_DELAY bookkeeping and generate_claim are dropped and not claimed
 //! trusted: R6: `for i in (1..requests.len()).rev() { B }` becomes a down-counting while loop over the range evaluated once (std semantics of Range/Rev), `for j in 0..i` a counting loop; `requests[j].merge_package(..)` is written `requests.get_mut(j).unwrap().merge_package(..)` (IndexMut) with its result bound to a temporary before the `if let` so that proof hints can sit between (R9, same evaluation order); PackageTemplate is a stub with a ghost input count; can_merge_with is external_body with an unconstrained answer; merge_package is external_body with the contract proved for the real function in unit u07 (Ok: inputs are concatenated; Err: self unchanged and the argument handed back) - its pkg_wf precondition is not re-established here (assumed preserved by merging)
 use vstd::prelude::*;
 verus! {
@@ -112,5 +113,76 @@ pub proof fn lemma_total_insert(s: Seq<PackageTemplate>, i: int, p: PackageTempl
 //@ensures P C06,C07 delayed-claims-are-released-as-soon-as-the-chain-reaches-their-locktime
     r == cur_height + 1,
 //@end
+
+// ---- update_claims_view_from_matched_txn: the request a replacement claim is generated from ----------
+// `bump_candidates` holds a copy of every request whose claim has to be regenerated at the end of the function;
+// the copy must be the request as it is now (after every outpoint a confirmed transaction spent was split off).
+pub mod bump_snapshot {
+use vstd::prelude::*;
+pub struct ClaimId(pub [u8; 32]);
+impl Clone for ClaimId { #[verifier::external_body] fn clone(&self) -> (r: Self) ensures r == *self { unimplemented!() } }
+impl Copy for ClaimId {}
+impl PartialEq for ClaimId { #[verifier::external_body] fn eq(&self, o: &ClaimId) -> (r: bool) { self.0 == o.0 } }
+pub struct PackageTemplate { pub outpoints: Ghost<Seq<int>>, pub height_timer: u32 }
+impl Clone for PackageTemplate { #[verifier::external_body] fn clone(&self) -> (r: Self) ensures r == *self { unimplemented!() } }
+impl PackageTemplate {
+    #[verifier::external_body] pub fn timer(&self) -> (r: u32) ensures r == self.height_timer { unimplemented!() }
+}
+// environment: the HashMap<ClaimId, PackageTemplate> of the source. insert has the std contract; the entry API is
+// over-approximated (sound, weaker than std): after `entry(k)` the key is present, a value that was present is unchanged,
+// a value that was absent is unconstrained, and or_insert / or_insert_with / or_default on the entry change nothing further.
+pub struct CandidateMap { pub m: Ghost<Map<ClaimId, PackageTemplate>> }
+pub struct Entry {}
+impl Entry {
+    #[verifier::external_body] pub fn or_insert_with<F: FnOnce() -> PackageTemplate>(self, f: F) requires f.requires(()) { unimplemented!() }
+    #[verifier::external_body] pub fn or_insert(self, v: PackageTemplate) { unimplemented!() }
+}
+impl CandidateMap {
+    #[verifier::external_body] pub fn insert(&mut self, k: ClaimId, v: PackageTemplate) -> (r: Option<PackageTemplate>)
+        ensures final(self).m@ == old(self).m@.insert(k, v) { unimplemented!() }
+    #[verifier::external_body] pub fn entry(&mut self, k: ClaimId) -> (e: Entry)
+        ensures final(self).m@.dom() == old(self).m@.dom().insert(k),
+            forall|o: ClaimId| old(self).m@.contains_key(o) ==> #[trigger] final(self).m@[o] == old(self).m@[o] { unimplemented!() }
+    #[verifier::external_body] pub fn remove(&mut self, k: &ClaimId) -> (r: Option<PackageTemplate>)
+        ensures final(self).m@ == old(self).m@.remove(*k) { unimplemented!() }
+}
+pub struct ClaimEvents {}
+impl ClaimEvents { #[verifier::external_body] pub fn retain<F: FnMut(&(ClaimId, u8)) -> bool>(&mut self, f: F) { unimplemented!() } }
+pub struct OnchainTxHandler { pub pending_claim_events: ClaimEvents }
+impl OnchainTxHandler {
+//@extract lightning/src/chain/onchaintx.rs :: impl OnchainTxHandler :: fn update_claims_view_from_matched_txn
+//@cfg debug_assertions=false
+//@slice R15
+    if at_least_one_drop { $upd:straight }
+//@with
+    fn candidate_after_split(&mut self, bump_candidates: &mut CandidateMap, claim_id: &ClaimId, request: &mut PackageTemplate) { $upd }
+//@ensures P C06,C07 after-a-confirmed-transaction-split-outpoints-off-a-request-the-claim-is-regenerated-from-the-request-as-it-is-now
+    final(bump_candidates).m@ =~= old(bump_candidates).m@.insert(*claim_id, *old(request)),
+    *final(request) == *old(request),
+//@mutant snapshot_kept_from_the_first_split
+    if at_least_one_drop { bump_candidates.insert(*claim_id, request.clone());
+//@with
+    if at_least_one_drop { bump_candidates.entry(*claim_id).or_insert_with(|| request.clone());
+//@mutant candidate_not_recorded
+    if at_least_one_drop { bump_candidates.insert(*claim_id, request.clone());
+//@with
+    if at_least_one_drop { 
+//@end
+//@extract lightning/src/chain/onchaintx.rs :: impl OnchainTxHandler :: fn update_claims_view_from_matched_txn
+//@cfg debug_assertions=false
+//@slice R15
+    for (claim_id, request) in self.pending_claim_requests.iter() { $body:straight } if !bump_candidates.is_empty()
+//@with
+    fn candidate_when_timer_expired(bump_candidates: &mut CandidateMap, claim_id: &ClaimId, request: &PackageTemplate, cur_height: u32) { $body }
+//@ensures P C06,C07 a-request-whose-timer-has-expired-is-regenerated-from-the-request-as-it-is-now-and-no-other-candidate-is-touched
+    cur_height >= request.height_timer ==> final(bump_candidates).m@ =~= old(bump_candidates).m@.insert(*claim_id, *request),
+    cur_height < request.height_timer ==> final(bump_candidates).m@ =~= old(bump_candidates).m@,
+//@mutant expired_timer_not_rescheduled_at_the_timer_height
+    cur_height >= request.timer()
+//@with
+    cur_height > request.timer()
+//@end
+}
+}
 }
 fn main() {}
